@@ -241,6 +241,10 @@ DIVS = [
     (1, 2, 4, 8, 16, 32),
     (48,),
     (1,),
+    # the same kind of lists, not in ascending order (nothing says the divisions come sorted)
+    (16, 12, 8),
+    (4, 2, 1),
+    (3, 96, 7),
 ]
 _allowed_cache = {}
 
